@@ -134,6 +134,7 @@ func errClasses(err error) string {
 		{"DeadlineExceeded", context.DeadlineExceeded},
 		{"ErrPath", path.ErrPath},
 		{"ErrParse", parser.ErrParse},
+		{"ErrScan", path.ErrScan},
 	} {
 		if errors.Is(err, s.err) {
 			c = append(c, s.name)
